@@ -69,6 +69,18 @@ type Options struct {
 	StopOnFirst  bool
 	Replay       []Decision        // when set: run exactly this vector
 	ReplayModel  map[string]string // with Replay: concrete values for nondets
+	// ValidateSamples > 0: collect up to that many completed single-goroutine paths (decision vector, a model of
+	// the path condition, cover points, observations) for replay against the native build (translator validation)
+	ValidateSamples int
+	wantSample      func(cover map[string]bool) bool
+}
+
+// ValSample is one completed path handed to the native build for comparison.
+type ValSample struct {
+	Choices []int             `json:"choices"`
+	Model   map[string]string `json:"model"`
+	Cover   []string          `json:"cover"`
+	Obs     []string          `json:"obs"`
 }
 
 // Report is the result of exploring one harness.
@@ -93,6 +105,7 @@ type Report struct {
 	MaxPreempt   int
 	Threads      int
 	Observations []string
+	ValSamples   []ValSample
 }
 
 type workItem struct {
@@ -135,6 +148,32 @@ func Explore(p *Program, harness string, opts Options) *Report {
 	e.rep = &Report{Harness: harness, Unsupported: map[string]int{}, Bounds: map[string]int{}, Cover: map[string]int{},
 		Funcs: map[string]bool{}}
 	e.rep.SolverStats.BySolver = map[string]int{}
+	if opts.ValidateSamples > 0 && opts.Replay == nil {
+		seen, taken := 0, 0
+		sampled := map[string]bool{}
+		var smu sync.Mutex
+		e.opts.wantSample = func(cover map[string]bool) bool {
+			smu.Lock()
+			defer smu.Unlock()
+			seen++
+			if taken >= opts.ValidateSamples {
+				return false
+			}
+			want := seen <= 4 || seen%53 == 0
+			for k := range cover {
+				if !sampled[k] {
+					want = true
+				}
+			}
+			if want {
+				taken++
+				for k := range cover {
+					sampled[k] = true
+				}
+			}
+			return want
+		}
+	}
 	start := time.Now()
 	if opts.Replay != nil {
 		e.frontier = []workItem{{prefix: opts.Replay}}
@@ -253,6 +292,7 @@ type runResult struct {
 	maxPreempt int
 	threads    int
 	obs        []string
+	sample     *ValSample
 }
 
 func (e *Explorer) merge(r *runResult) {
@@ -280,6 +320,9 @@ func (e *Explorer) merge(r *runResult) {
 		}
 		if len(rep.Observations) < 200 {
 			rep.Observations = append(rep.Observations, r.obs...)
+		}
+		if r.sample != nil {
+			rep.ValSamples = append(rep.ValSamples, *r.sample)
 		}
 	case OutInfeasible:
 		rep.Infeasible++
